@@ -30,6 +30,10 @@ MUTANTS = [
      lambda f, rc: rc != 0),
     ('handleError not followed by return', 'snaps/matchYAML.go', '\t\terr := addNewSnapshot(testID, snapshot, snapPath)\n\t\tif err != nil {\n\t\t\thandleError(t, err)\n\t\t\treturn\n\t\t}', '\t\terr := addNewSnapshot(testID, snapshot, snapPath)\n\t\tif err != nil {\n\t\t\thandleError(t, err)\n\t\t}',
      lambda f, rc: rc == 0 and f['bools']['handleErrorReturns'] is False),
+    ('constructFilename trims the extension of a user Filename too', 'snaps/snapshot.go',
+     '\tif filename == "" {\n\t\tbase := filepath.Base(callerFilename)\n\t\tfilename = strings.TrimSuffix(base, filepath.Ext(base))\n',
+     '\tif filename == "" {\n\t\tbase := filepath.Base(callerFilename)\n\t\tfilename = base\n',
+     lambda f, rc: rc == 0),      # the regenerated Funcs.lean differs: checked by the Lean theorem constructFilename_tied
     ('sjson ReplaceInPlace', 'match/utils.go', '\t\tOptimistic: true,\n', '\t\tOptimistic: true,\n\t\tReplaceInPlace: true,\n',
      lambda f, rc: rc == 0 and f['bools']['sjsonReplaceInPlace'] is True),
 ]
